@@ -127,3 +127,44 @@ func (node *Node) VerifProcessAll(ctx context.Context) {
 	node.stopping = false
 	node.lock.Unlock()
 }
+
+// ---- untrusted nodes (C14 / C12) ----
+
+// VerifNewUntrusted builds an untrusted node like monitorUntrustedNodes does, wires its handlers like
+// UntrustedNode.Run does, marks it verified and registers it with the node - without a connection.
+func (node *Node) VerifNewUntrusted(ctx context.Context, address string) *UntrustedNode {
+	un := NewUntrustedNode(address, node.config, node.state, node.store, node.peers, node.blocks, node.txs,
+		node.memPool, &node.unconfTxChannel, node.handlers, node, false)
+	un.messageHandlers = handlers.NewUntrustedMessageHandlers(ctx, un.trustedState, un.untrustedState, un.peers,
+		un.blocks, un.txTracker, un.memPool, un.txChannel, un.isRelevant, un.address)
+	un.outgoing.Open(1000)
+	un.active = true
+	st := un.untrustedState
+	st.SetVersionReceived()
+	st.SetHandshakeComplete()
+	st.SetVerified()
+	st.SetScoreUpdated()
+	st.SetAddressesRequested()
+	st.SetMemPoolRequested()
+	node.untrustedLock.Lock()
+	node.untrustedNodes = append(node.untrustedNodes, un)
+	node.untrustedLock.Unlock()
+	return un
+}
+
+func (un *UntrustedNode) VerifHandle(ctx context.Context, msg wire.Message) error {
+	return un.handleMessage(ctx, msg)
+}
+func (un *UntrustedNode) VerifCheck(ctx context.Context) error { return un.check(ctx) }
+func (un *UntrustedNode) VerifTracker() *state.TxTracker       { return un.txTracker }
+func (un *UntrustedNode) VerifDrainOutgoing() []wire.Message {
+	var r []wire.Message
+	for {
+		select {
+		case m := <-un.outgoing.Channel:
+			r = append(r, m)
+		default:
+			return r
+		}
+	}
+}
